@@ -32,7 +32,8 @@ MANIFEST_TEXT = (
     "coefficients), the index assembly of both branches of `if (r >= 0)`, the compare-and-swap network of the diagonal "
     "special case, and the LAPACK call sites of fmatrixev.hh and dynmatrixev.hh (orientation of copy and copy-back, "
     "jobz/uplo/jobvl/jobvr, lwork, the size of every buffer); the driver runs the interpreters of these tables and "
-    "ev3_control_translated proves them equal to the hand-written control flow for every scalar type, so that "
+    "ev3_control_translated proves them equal over the reals to the hand-written control flow (expressions up to ring "
+    "identities, index tables by evaluation), so that "
     "ev3_vectors_translated and ev3_refines_specification (translated control flow -> abstract specification "
     "IsEigenDecomposition3: ascending, trace, whole spectrum with multiplicity, orthonormal eigenvectors) speak about "
     "the current source; lapack_sym_call / lapack_nonsym_call prove for every order that lwork and all buffers meet "
@@ -61,7 +62,9 @@ MANIFEST_NOTE = (
     "reference arithmetic, g++/ASan/UBSan, glibc libm (acos/cos/sqrt are the same functions in harness and driver).  "
     "The tie of the translated control tables is exact: ev3_control_translated is an equality of functions, so a "
     "change of the source that only flips the sign of an eigenvector (operands of a cross product exchanged) or decides "
-    "a tie differently (r > 0 for r >= 0) breaks the obligation although the property still holds; it is then "
+    "a tie differently (r > 0 for r >= 0) breaks the obligation although the property still holds (translated "
+    "expressions are compared up to ring identities, so commuted factors and re-associated sums are fine; index tables "
+    "are compared exactly); it is then "
     "reported after the search as no-failing-input-found.  The diagonal special case is tied as a table equality "
     "(ev3_diag_network_translated) and by running the interpreted tables in the driver.  "
     "Not modelled: LAPACK itself; the float and long double instantiations of the closed form are tied by the oracle and "
@@ -135,7 +138,8 @@ ASSUMPTIONS = [
     "stack arrays / std::make_unique<double[]> buffers allocated per call with integer size expressions in N/dim; "
     "anything else (static or thread_local buffers, other statements) is a TranslateError = broken obligation",
     "the interpreters in Model/C08T.lean are hand-written (core Lean); the line-protocol driver runs them, the theorems "
-    "are transferred through Proofs/C08Tie.lean (equalities by definitional unfolding)",
+    "are transferred through Proofs/C08Tie.lean (over the reals: translated expressions identified with the hand-written "
+    "ones by rfl or ring_nf, also inside sqrt; index tables by evaluation)",
     "LAPACK's interface requirements used in lapack_sym_call / lapack_nonsym_call (LWORK >= max(1,3N-1) for ?syev; "
     "LWORK >= max(1,3N), >= 4N with eigenvectors, for ?geev) are taken from the LAPACK documentation",
     "output arguments: their content on entry is treated as part of the input (any content for the fixed-size outputs, "
